@@ -77,6 +77,16 @@ partial def handle (op : String) (arg : Sexp) : String :=
       | some st => " ".intercalate (needles.map (fun x => showTri (staticIn st hay neg x)))
       | none => "bad-op"
     | _, _, _, _ => "bad-op"
+  | "presel", .list [isAnd, .list rows] =>
+    -- the Lean model of the AND/OR pre-selection strategy on a batch of (left, right) values
+    let parseTri : Sexp → Option Tri := fun s => match s with
+      | .atom "t" => some .t | .atom "f" => some .f | .atom "u" => some .u | _ => none
+    let rs := rows.mapM (fun r => match r with
+      | .list [l, r] => do some ((← l.asBool?), (← parseTri r))
+      | _ => none)
+    match isAnd.asBool?, rs with
+    | some a, some rs => " ".intercalate ((preSelect a (rs.map (·.1)) (selectedRhs a rs)).map showTri)
+    | _, _ => "bad-op"
   | "casebatch", .list [.list whens, els, .list rows] =>
     let ws := whens.mapM (fun w => match w with
       | .list [c, r] => do some ((← parseExpr c), (← parseExpr r))
